@@ -195,6 +195,7 @@ type runtimeT struct {
 	rw      map[uintptr]*rwState
 	cond    map[uintptr][]*Thread
 	wg      map[uintptr]int64
+	wgWait  map[uintptr][]*Thread
 	timers  map[uintptr]*timerState
 	now     int64
 	objLast map[uintptr]uint64
@@ -304,6 +305,7 @@ func Run(cfg Config, st Strategy, body func()) *Result {
 		rw:      map[uintptr]*rwState{},
 		cond:    map[uintptr][]*Thread{},
 		wg:      map[uintptr]int64{},
+		wgWait:  map[uintptr][]*Thread{},
 		timers:  map[uintptr]*timerState{},
 		objLast: map[uintptr]uint64{},
 		objID:   map[uintptr]uint64{},
@@ -436,6 +438,9 @@ type entry struct {
 }
 
 func (r *runtimeT) chanReady(addr uintptr) bool {
+	if addr == 0 {
+		return false // a nil channel is never ready: the receiver blocks for ever, as in Go
+	}
 	if ts := r.timers[addr]; ts != nil && ts.fired {
 		return true
 	}
@@ -490,7 +495,10 @@ func (r *runtimeT) enabledAlts(t *Thread, alts *[maxSel]int) int {
 			return 0
 		}
 	case OpWGWait:
-		if r.wg[p.obj] == 0 {
+		// phase 0: the call itself (returns at once when the counter is zero, else enqueues as a waiter);
+		// phase 1: blocked; phase 2: released by the Add that brought the counter to zero - as in sync, a
+		// released waiter stays released whatever is added afterwards
+		if t.phase != 1 {
 			return 1
 		}
 		return 0
@@ -500,6 +508,9 @@ func (r *runtimeT) enabledAlts(t *Thread, alts *[maxSel]int) int {
 		}
 		return 0
 	case OpSend:
+		if p.obj == 0 {
+			return 0 // send on a nil channel blocks for ever
+		}
 		if chanClosed(p.obj) {
 			return 1 // will panic in the thread, as the real send does
 		}
@@ -815,9 +826,26 @@ func (r *runtimeT) loop() *Result {
 				v = 0
 			}
 			r.wg[p.obj] = v
+			if v == 0 {
+				for _, w := range r.wgWait[p.obj] {
+					w.phase = 2
+				}
+				delete(r.wgWait, p.obj)
+			}
 			r.record(t, p.kind, 0, p.obj)
 		case OpWGWait:
-			r.record(t, p.kind, 0, p.obj)
+			switch {
+			case t.phase == 0 && r.wg[p.obj] != 0:
+				r.wgWait[p.obj] = append(r.wgWait[p.obj], t)
+				t.phase = 1
+				r.record(t, p.kind, 0, p.obj)
+				wake = false
+			case t.phase == 2 && r.wg[p.obj] != 0:
+				resp.fail = "sync: WaitGroup is reused before previous Wait has returned"
+				r.record(t, p.kind, 2, p.obj)
+			default:
+				r.record(t, p.kind, int(t.phase), p.obj)
+			}
 		case OpAtomicLoad, OpAtomicStore:
 			r.record(t, p.kind, 0, p.obj)
 		case OpRecv:
